@@ -19,8 +19,9 @@
     fast state that agrees with s on the in-range coefficients (garbage in the extra row or in
     the padding is inert).  Extra hypothesis: [dtables_related] (the derivative recurrence
     weights a, b of the fast grid are the reference ones re-indexed; a is zero in the padded
-    columns) - an exact table obligation like [tables_related].  Trajectories (time
-    integration) are not covered: tendencies only. *)
+    columns) - an exact table obligation like [tables_related].
+    "... and trajectories": C09_step_equiv / C09_filter_equiv / C09_trajectory_equiv below. *)
+From Dino Require Import Model.Integrators.
 From Dino Require Import Model.Sigma Model.Implicit Model.PrimEq Model.Deriv Model.PrimEqFull Model.PrimEqFullFast Thm.PrimEqFullFast.
 From Dino Require Import Base.Ops Base.Sums Base.Inst Model.SHT Model.SHTFast Thm.SHT Thm.SHTFast.
 From Coq Require Import Qcanon.
@@ -213,6 +214,61 @@ Section C09_whole_state.
                 (embed_state M L s) s (srel_embed_state g s) eta invt k) as (E1 & E2 & E3 & E4 & E5).
     repeat split; auto; apply E5.
   Qed.
+
+  (** *** "... and trajectories".  State space: [PwOps] (pointwise operations on the four prognostic
+      fields; the tracer list is dropped as in C12: tracers are passive in the dry equations - their
+      tendencies are covered by C09_explicit_terms_equiv, their time stepping is NOT).  The model
+      operators are composed with the in-range normal forms on the output side ([FxR] ... [GinvF],
+      Thm/PrimEqFullFast.v), so "equal on every in-range coefficient" reads as equality of states.
+      [invt eta l] = np.linalg.inv(implicit_matrix(eta))[l], the same table on both sides. *)
+  Variable invt : F -> nat -> @Mat F.
+  Hypothesis HK : (0 < cK c)%nat.
+  Variables (grav : F) (orog : nat -> nat -> F).
+  Let Fr := FxR g c grav orog.
+  Let Gr := GR g c.
+  Let Ginvr := GinvR g c invt.
+  Let Ff := FxF g Mh Lf If Jf stacked rev ff pf wf af bf sec2f sinf c grav orog.
+  Let Gf := GF g Mh Lf If Jf stacked rev ff pf wf af bf sec2f sinf c.
+  Let Ginvf := GinvF g Mh Lf If Jf stacked rev ff pf wf af bf sec2f sinf c invt.
+  Let ES := embed_state M L.
+
+  (** one step of EVERY integrator of Model/Integrators.v (backward-forward Euler, crank_nicolson_rk2,
+      the low-storage RK + CN family for any coefficient lists, imex_runge_kutta for ANY tableau,
+      semi-implicit leapfrog) on the fast model from E u  =  E (the reference step from u) *)
+  Theorem C09_step_equiv dt alpha al be ga a_ex a_im b_ex b_im u p0 q0 :
+    euler_step (vo := PwOps) Ff Ginvf dt (ES u) = ES (euler_step (vo := PwOps) Fr Ginvr dt u) /\
+    cn_rk2_step (vo := PwOps) Ff Gf Ginvf dt (ES u) = ES (cn_rk2_step (vo := PwOps) Fr Gr Ginvr dt u) /\
+    ls_step (vo := PwOps) Ff Gf Ginvf dt al be ga (ES u) = ES (ls_step (vo := PwOps) Fr Gr Ginvr dt al be ga u) /\
+    imex_step (vo := PwOps) Ff Gf Ginvf dt a_ex a_im b_ex b_im (ES u)
+    = option_map ES (imex_step (vo := PwOps) Fr Gr Ginvr dt a_ex a_im b_ex b_im u) /\
+    leapfrog_step (vo := PwOps) Ff Gf Ginvf dt alpha (ES p0, ES q0)
+    = (ES (fst (leapfrog_step (vo := PwOps) Fr Gr Ginvr dt alpha (p0, q0))),
+       ES (snd (leapfrog_step (vo := PwOps) Fr Gr Ginvr dt alpha (p0, q0)))).
+  Proof. unfold Ff, Gf, Ginvf, Fr, Gr, Ginvr, ES, M, L. eapply whole_state_step_equiv; eauto. Qed.
+
+  (** spectral filters (a factor per total wavenumber; the fast table agrees on l < L) commute with E *)
+  Theorem C09_filter_equiv (sigmaf sigma : nat -> F) u w :
+    (forall l, (l < hL g)%nat -> sigmaf l = sigma l) ->
+    lfilter sigmaf (ES u) (ES w) = ES (lfilter sigma u w).
+  Proof. unfold ES, M, L. apply lfilter_equiv. Qed.
+
+  (** any number of filtered steps, any step functions / filters that commute with E (previous two theorems) *)
+  Theorem C09_trajectory_equiv (step step' : @State F -> @State F) (fl fl' : list (@State F -> @State F -> @State F)) :
+    (forall u, step' (ES u) = ES (step u)) ->
+    Forall2 (fun f' f => forall u w, f' (ES u) (ES w) = ES (f u w)) fl' fl ->
+    forall n u, Nat.iter n (filtered_step step' fl') (ES u) = ES (Nat.iter n (filtered_step step fl) u).
+  Proof. unfold ES, M, L. apply whole_state_trajectory_equiv. Qed.
+
+  (** instance: n steps of crank_nicolson_rk2 followed by a spectral filter *)
+  Corollary C09_trajectory_cn_rk2_filtered dt (sigmaf sigma : nat -> F) n u :
+    (forall l, (l < hL g)%nat -> sigmaf l = sigma l) ->
+    Nat.iter n (filtered_step (cn_rk2_step (vo := PwOps) Ff Gf Ginvf dt) [lfilter sigmaf]) (ES u)
+    = ES (Nat.iter n (filtered_step (cn_rk2_step (vo := PwOps) Fr Gr Ginvr dt) [lfilter sigma]) u).
+  Proof.
+    intros Hs. apply C09_trajectory_equiv.
+    - intros u0. exact (proj1 (proj2 (C09_step_equiv dt 0 [] [] [] [] [] [] [] u0 u0 u0))).
+    - constructor; [|constructor]. intros u0 w. now apply C09_filter_equiv.
+  Qed.
 End C09_whole_state.
 
 (** masks: the fast mask is the embedded reference mask *)
@@ -339,6 +395,25 @@ Proof.
   qc.
 Qed.
 
+(** non-vacuity of the step theorems: one backward-forward Euler step on the tiny instance (one level,
+    hypothesis 0 < K holds), implicit-inverse tables = identity matrices; the re-indexed coefficient of
+    the fast step equals the reference one and is not zero *)
+Definition ex_inv (eta : Qc) (l : nat) : @Mat Qc := fun i j => if i =? j then Q2Qc 1 else Q2Qc 0.
+Example C09_step_satisfiable :
+  (0 < cK ex_c)%nat /\
+  let Ff := FxF ex_g 2 2 4 3 false false ex_ff ex_pf ex_wf ex_af ex_bf (fun _ => Q2Qc 2) (fun _ => Q2Qc (1#2)) ex_c (Q2Qc 1) (fun _ _ => Q2Qc 0) in
+  let Ginvf := GinvF ex_g 2 2 4 3 false false ex_ff ex_pf ex_wf ex_af ex_bf (fun _ => Q2Qc 2) (fun _ => Q2Qc (1#2)) ex_c ex_inv in
+  let Fr := FxR ex_g ex_c (Q2Qc 1) (fun _ _ => Q2Qc 0) in
+  let Ginvr := GinvR ex_g ex_c ex_inv in
+  s_temp (euler_step (vo := PwOps) Ff Ginvf (Q2Qc (1#2)) (embed_state 2 2 ex_s)) 0 3 0
+  = s_temp (euler_step (vo := PwOps) Fr Ginvr (Q2Qc (1#2)) ex_s) 0 2 0 /\
+  s_temp (euler_step (vo := PwOps) Fr Ginvr (Q2Qc (1#2)) ex_s) 0 2 0 <> 0.
+Proof.
+  split; [cbn; lia|]. cbv zeta. split.
+  - qc.
+  - intro H. vm_compute in H. discriminate H.
+Qed.
+
 Print Assumptions C09_synth_equiv.
 Print Assumptions C09_analysis_equiv.
 Print Assumptions C09_fast_padding_inert.
@@ -355,3 +430,8 @@ Print Assumptions C09_explicit_terms_padding_inert.
 Print Assumptions C09_implicit_terms_equiv.
 Print Assumptions C09_implicit_inverse_equiv.
 Print Assumptions C09_whole_state_satisfiable.
+Print Assumptions C09_step_equiv.
+Print Assumptions C09_filter_equiv.
+Print Assumptions C09_trajectory_equiv.
+Print Assumptions C09_trajectory_cn_rk2_filtered.
+Print Assumptions C09_step_satisfiable.
